@@ -613,11 +613,24 @@ def run(tier, seed, ev, vd):
     if res.violated:
         raise tlc.MachineryError('MapFile violates %s' % res.violated)
     ev.add_tlc('MC MapFile', res)
-    states = list(res.states())
-    account(pmap(_map_rows, states), '.map weights')
-    for st in states:
+    # TLC checks the invariants on every state; the replay into read_backmapping_file streams the dump and, in the thorough
+    # tier (4.9 M states with three lines), takes every 12th state so that the rows fit in memory (25 GB otherwise)
+    stride = 1 if quick else 12
+    batch, nmap = [], 0
+    for i, st in enumerate(res.states()):
+        if i % stride:
+            continue
+        batch.append(st)
         if any(len(l['beads']) >= 2 for l in st['lines']):
             ev.nontrivial_case(['map', st['lines']])
+        if len(batch) >= 60000:
+            account(pmap(_map_rows, batch), '.map weights')
+            nmap += len(batch)
+            batch = []
+    if batch:
+        account(pmap(_map_rows, batch), '.map weights')
+        nmap += len(batch)
+    ev.extra['map_rows_replayed'] = {'rows': nmap, 'stride': stride}
     # 5. FFFile: well-formed sequences + every fault at every position
     faults = sorted(CH.FAULT_IDS)
     menu = CH.menu_tla(None if not quick else {1, 2, 3, 4, 5, 6, 7, 8, 10, 13, 14}, faults if not quick else faults[::2] + [faults[-1]])
